@@ -409,6 +409,7 @@ def run_bads(prob, seed):
             rec["attr_mesh"] = float(bads.mesh_size)       # the optimiser's CURRENT mesh size (what the history and the result report)
             rec["state_mesh"] = float(bads.optim_state["mesh_size"])
             rec["state_search_mesh"] = float(bads.optim_state["search_mesh_size"])
+            rec["attr_search_mesh"] = float(getattr(bads, "search_mesh_size", bads.optim_state["search_mesh_size"]))
             rec["iter"] = int(bads.optim_state["iter"])
         if st["cur"] is not None and st["inpoll"]:
             st["cur"]["n_generated"] += 1           # a second direction set in one poll step
@@ -571,3 +572,49 @@ def coq_run_case(p):
             f"{clist([cz(x) for x in p['sdraws']])}, {cnats(p['perm'])}), "
             f"({cbool(exact)}, {cqmat(p['B'])}, {cqlist(p['u'])}, {cqmat(p['pre'])}, {cqmat(p['cands'])}, "
             f"{cnats(ch)}, {cqmat(p['evald'])}))")
+
+
+# ----------------------------------------------------------------------------- the GENERATED programs (translate/poll.py -> gen/Src_poll.v)
+# Translator validation: the same case literals as the hand-written model, evaluated through Model/PollSrc.v's interpreter on
+# src_gen / src_cand.  The run-level literal additionally carries the four mesh places of the state at the moment the generator was
+# called (the generated block decides which of them it reads) .
+
+REQUIRES_SRC = ["PV.Model.Val", "PV.Model.PollDirs", "PV.Model.PollSrc", "PV.gen.Src_poll"]
+OK_FUN_SRC = ("fun c => let '(D, ps, sm, m, dr, sd, pm) := fst c in let '(ex, ct, B) := snd c in "
+              "src_case_ok src_gen D ps sm m dr sd pm ex ct B")
+RUN_CASE_TY_SRC = "(" + RUN_CASE_TY + ") * (Q * Q * Q * Q)"
+RUN_OK_FUN_SRC = ("fun cc => let c := fst cc in let '(ms, ma, ss, sa) := snd cc in "
+                  "let '(D, ps, sm, m, dr, sd, pm) := fst c in "
+                  "let '(ex, B, u, pre, cands, ch, ev) := snd c in "
+                  "src_step_ok src_gen src_cand D "
+                  "{| s_u := u; s_ps := ps; s_mesh_state := ms; s_mesh_attr := ma; s_smesh_state := ss; s_smesh_attr := sa; s_force := false |} "
+                  "dr sd pm ex B pre cands ch ev")
+
+
+def coq_run_case_src(p):
+    base = coq_run_case(p)
+    if base is None or "state_mesh" not in p:
+        return None
+    return (f"({base}, ({cq(p['state_mesh'])}, {cq(p['attr_mesh'])}, {cq(p['state_search_mesh'])}, "
+            f"{cq(p.get('attr_search_mesh', p['state_search_mesh']))}))")
+
+
+AIMED_RATIOS = [  # (search_mesh, mesh): round-half-even ties, ratios below 1/2 (n would be 0 without the floor at 1), large n
+    (0.5, 1.0), (1.5, 1.0), (2.5, 1.0), (3.5, 1.0), (4.5, 1.0), (6.5, 1.0), (0.49, 1.0), (0.51, 1.0), (2.0 ** -30, 1.0), (1.0, 1.0),
+    (2.0, 1.0), (3.0, 1.0), (7.0, 2.0), (32.0, 1.0), (1.0, 2.0 ** -6), (1024.0, 1.0), (5.0, 2.0), (1.25, 0.5), (2.0 ** -8, 2.0 ** -10),
+]
+
+
+def aimed_case(rng, idx):
+    """component cases placed where an edit of poll_mads_2n shows: D >= 2 with n > 1 (non-zero strictly-lower entries: tril / transpose /
+    permutation / draw range), ratio ties and ratios < 1/2 (round / maximum), D = 1, poll scales far from 1 (division), 2-D poll scale"""
+    D = rng.choice([1, 2, 2, 3, 3, 4, 5, 6])
+    sm, m = AIMED_RATIOS[idx % len(AIMED_RATIOS)]
+    r = rng.random()
+    if r < 0.25:
+        ps = [1.0] * D
+    elif r < 0.5:
+        ps = [2.0 ** rng.randint(-8, 8) for _ in range(D)]
+    else:
+        ps = [rng.choice([rng.uniform(0.01, 20.0), 1e-6, 1e6, 0.3, 3.0]) for _ in range(D)]
+    return dict(D=D, n=n_of(sm, m), ps=ps, sm=sm, m=m, ps_2d=rng.random() < 0.3)
